@@ -6,6 +6,8 @@ Correspondence streams (every case: implementation run, direct property oracle, 
   ats    attributes_to_string on dicts (exhaustive hostile values / names / single name characters, SafeString keys, then random)
   tag    {% html_attrs %} through real template renders: positional / keyword attrs, defaults, repeated
          keywords, aggregate attrs:k / defaults:k, spreads, non-identifier keys, bool / None / numbers
+  hist   HISTORY: the same attrs / defaults dictionary OBJECTS passed to 2-4 successive {% html_attrs %} calls (separate renders,
+         several tags in one template, a {% for %} loop): every call = the call alone on fresh dicts, inputs unchanged, model run_heap
   parse  reader differential: the model's attribute tokenizer against html.parser on attribute text
   slot   Component.render(slots=...) x escape flag x chains of re-passing (incl. the dynamic component)
   wrap   wrap_component_js / wrap_component_css on end-tag look-alikes + real renders with inlined JS/CSS
@@ -27,6 +29,8 @@ CORPUS = os.path.join(C.VERIF, "corpus", "C13")
 TRIG_NAMES = "c13-attr-name-chars"
 TRIG_ENDTAG = "c13-endtag-case"
 TRIG_MERGE = "c13-repeated-kwargs-index"
+TRIG_MUTATED = "c13-input-mutated"
+TRIG_HISTORY = "c13-history-leak"
 
 # ---------------------------------------------------------------------------------------------
 # Python values <-> JSON-able descriptions <-> Coq terms
@@ -264,12 +268,47 @@ def rand_value(rng, allow_safe=True):
     return ["n", rng.choice([0, 1, 5, -3, 42, 1.5, 10 ** 12])]
 
 
+def describe_value(v):
+    """Python value -> value description (inverse of mk_value); nested dict -> {"dict": items}."""
+    from django.utils.safestring import SafeData
+    if v is True or v is False or v is None:
+        return v
+    if isinstance(v, str):
+        return ["safe", str.__str__(v)] if isinstance(v, SafeData) else ["s", v]
+    if isinstance(v, (int, float)):
+        return ["n", v]
+    if isinstance(v, dict):
+        return {"dict": describe_dict(v)}
+    return ["?", repr(v)]
+
+
+def describe_dict(d):
+    """Python dict -> items description incl. the safe mark of every key OBJECT, in the dict's order."""
+    from django.utils.safestring import SafeData
+    return [[["safe", str.__str__(k)] if isinstance(k, SafeData) else k, describe_value(v)] for k, v in d.items()]
+
+
+# inputs that a call changed: (what, description before, description after); drained by the streams
+MUTATED = []
+
+
 def run_ats(items):
     from django_components.attributes import attributes_to_string
+    d = mk_dict(items)
+    before = describe_dict(d)
     try:
-        return ("out", str(attributes_to_string(mk_dict(items))))
+        res = ("out", str(attributes_to_string(d)))
     except Exception as e:  # noqa
-        return ("err", type(e).__name__)
+        res = ("err", type(e).__name__)
+    if describe_dict(d) != before:
+        MUTATED.append(("attributes_to_string", before, describe_dict(d)))
+    return res
+
+
+def drain_mutated(chk, replay):
+    while MUTATED:
+        what, before, after = MUTATED.pop()
+        chk.fail(TRIG_MUTATED, "%s changed a dictionary it was given" % what, dict(replay, before=before, after=after))
 
 
 def stream_ats(chk, thorough, corpus_items):
@@ -311,6 +350,7 @@ def stream_ats(chk, thorough, corpus_items):
     terms, kept = [], []
     for items, kind in cases:
         res = run_ats(items)
+        drain_mutated(chk, {"kind": "ats", "items": items})
         hostile = any(v_is_str(v) and any(c in v[1] for c in "\"'<>& ") for _, v in items)
         chk.count(("ats", repr(items)), hostile, kind="ats-" + kind,
                   sample={"attributes_to_string": items, "result": res[1]} if kind == "random" and hostile and len(items) > 2 else None)
@@ -370,10 +410,15 @@ def run_tag(params):
         else:
             raise ValueError(p)
     src = "{% html_attrs " + " ".join(parts) + " %}"
+    before = {k: describe_dict(v) for k, v in ctx.items() if isinstance(v, dict)}
     try:
-        return ("out", str(Template(src).render(Context(ctx)))), src
+        res = ("out", str(Template(src).render(Context(ctx))))
     except Exception as e:  # noqa
-        return ("err", type(e).__name__, str(e)[:200]), src
+        res = ("err", type(e).__name__, str(e)[:200])
+    for k, b in before.items():
+        if describe_dict(ctx[k]) != b:
+            MUTATED.append(("{% html_attrs %}", b, describe_dict(ctx[k])))
+    return res, src
 
 
 def flat_params(params):
@@ -623,6 +668,7 @@ def stream_tag(chk, thorough, corpus_params):
         res, src = run_tag(params)
         flat = flat_params(params)
         replay = {"kind": "tag", "params": params, "template": src}
+        drain_mutated(chk, replay)
         exp = tag_oracle(params)
         parsed = None
         keys = [k_text(k) for k, _ in flat if k is not None]
@@ -658,6 +704,170 @@ def stream_tag(chk, thorough, corpus_params):
     bad = C.coq_eval_cases("C13", "tag", IMPORTS, "tag_case", "check_tag", terms, shard=1500)
     for i in bad[:10]:
         chk.disagree("model html_attrs_tag != {% html_attrs %} render", kept[i])
+
+
+# ---------------------------------------------------------------------------------------------
+# stream: HISTORY - the same dictionary OBJECTS reach {% html_attrs %} several times
+#   case: {"objects": [items ...], "calls": [[a_ref|None, d_ref|None, [[key, valuedesc] ...]] ...], "mode": separate|unrolled|loop}
+#   separate: one Template render per call; unrolled: one template with all the tags; loop: one {% for %} over rows
+#   (loop: same defaults reference and same keyword names in every call)
+# ---------------------------------------------------------------------------------------------
+SEP = "|~|"
+
+
+def run_history(case):
+    """-> (list of per-call results ("out", text) | ("err", cls, msg), or None when a single-template render raised: then
+    the 2nd item is that error), objects after, objects before."""
+    from django.template import Context, Template
+    objs = [mk_dict(it) for it in case["objects"]]
+    before = [describe_dict(o) for o in objs]
+    calls, mode = case["calls"], case["mode"]
+
+    def ref(r):
+        return None if r is None else objs[r]
+    results, whole_err = [], None
+    if mode == "separate":
+        for a, d, kws in calls:
+            ctx = {"a": ref(a), "d": ref(d)}
+            parts = []
+            for j, (k, v) in enumerate(kws):
+                ctx["v%d" % j] = mk_value(v)
+                parts.append("%s=v%d" % (k, j))
+            try:
+                results.append(("out", str(Template("{% html_attrs a d " + " ".join(parts) + " %}").render(Context(ctx)))))
+            except Exception as e:  # noqa
+                results.append(("err", type(e).__name__, str(e)[:200]))
+    else:
+        if mode == "unrolled":
+            ctx, src = {}, ""
+            for i, (a, d, kws) in enumerate(calls):
+                ctx["a%d" % i], ctx["d%d" % i] = ref(a), ref(d)
+                parts = []
+                for j, (k, v) in enumerate(kws):
+                    ctx["v%d_%d" % (i, j)] = mk_value(v)
+                    parts.append("%s=v%d_%d" % (k, i, j))
+                src += "{% html_attrs a" + str(i) + " d" + str(i) + " " + " ".join(parts) + " %}" + SEP
+        else:
+            d0, keys = calls[0][1], [k for k, _ in calls[0][2]]
+            rows = [{"a": ref(a), "v": [mk_value(v) for _, v in kws]} for a, _, kws in calls]
+            ctx = {"rows": rows, "d": ref(d0)}
+            src = "{% for row in rows %}{% html_attrs row.a d " + " ".join("%s=row.v.%d" % (k, j) for j, k in enumerate(keys)) + " %}" + SEP + "{% endfor %}"
+        try:
+            out = str(Template(src).render(Context(ctx)))
+            pieces = out.split(SEP)
+            results = [("out", t) for t in pieces[:-1]]
+            if len(results) != len(calls) or pieces[-1] != "":
+                whole_err = ("err", "OutputShape", out[:200])
+        except Exception as e:  # noqa
+            whole_err = ("err", type(e).__name__, str(e)[:200])
+    return (None if whole_err else results), whole_err, [describe_dict(o) for o in objs], before
+
+
+def hist_call_params(case, i):
+    a, d, kws = case["calls"][i]
+    return [["pos", None if a is None else case["objects"][a]], ["pos", None if d is None else case["objects"][d]]] + [["kw", k, v] for k, v in kws]
+
+
+def gen_history(rng, mode):
+    inner = ["class", "id", "data-id", "@click", "style", "title", ":href", "hidden", "disabled", "type"]
+    plain_only = mode != "separate"     # a raised error would hide the other calls of a single template
+
+    def val():
+        if plain_only or rng.random() < 0.7:
+            return ["s", rand_text(rng, 6)] if rng.random() < 0.8 else ["safe", rng.choice(["x", "<b>", "a&amp;b"])]
+        return rand_value(rng)
+
+    def rdict(minn=0):
+        ks = list(dict.fromkeys(rng.choice(inner) for _ in range(rng.randint(minn, 3))))
+        if not plain_only and rng.random() < 0.05:
+            ks.append(rng.choice(BAD_NAMES[:6]))
+        # (single-template modes: True / None / False only under names no keyword appends to - an error would hide the other calls)
+        return [(["safe", k] if rng.random() < 0.03 else k,
+                 rng.choice([True, None, False]) if plain_only and k not in KW_KEYS and rng.random() < 0.3 else val()) for k in ks]
+    objects = [rdict(1)] + [rdict() for _ in range(rng.randint(1, 3))]
+    ncalls = rng.randint(2, 4)
+    shared_d = 0 if rng.random() < 0.8 else rng.choice([None] + list(range(len(objects))))
+    keys = rng.sample(KW_KEYS, rng.randint(0, 2))
+    calls = []
+    for _ in range(ncalls):
+        a = rng.choice([None] + list(range(len(objects))))
+        d = shared_d if (mode == "loop" or rng.random() < 0.85) else rng.choice([None] + list(range(len(objects))))
+        ks = keys if mode == "loop" else rng.sample(KW_KEYS, rng.randint(0, 2))
+        calls.append([a, d, [[k, ["s", rand_text(rng, 5)] if plain_only or rng.random() < 0.8 else rand_value(rng)] for k in ks]])
+    return {"objects": objects, "calls": calls, "mode": mode}
+
+
+def exhaustive_histories():
+    D = [("class", ["s", "d"]), ("id", ["s", "i"])]
+    A1 = [("class", ["s", "a"]), ("hidden", True)]
+    A2 = [("title", ["s", 't"<'])]
+    objects = [D, A1, A2, []]
+    out = []
+    for mode in ("separate", "unrolled", "loop"):
+        for L in (2, 3):
+            for seq in itertools.product([1, 2, 3, None], repeat=L):
+                # one defaults object shared by all calls, varying attrs
+                out.append({"objects": objects, "calls": [[a, 0, []] for a in seq], "mode": mode})
+                if L == 2:
+                    # one attrs object shared, varying defaults (loop mode keeps the defaults reference: skip)
+                    if mode != "loop":
+                        out.append({"objects": objects, "calls": [[0, d, [["class", ["s", "k"]]]] for d in seq], "mode": mode})
+                    # the same object as attrs AND defaults, then as defaults only
+                    out.append({"objects": objects, "calls": [[seq[0], 0, [["class", ["s", "k"]]]], [seq[1], 0, [["class", ["s", "k"]]]]], "mode": mode})
+    return out
+
+
+def stream_hist(chk, thorough, corpus_cases):
+    import copy
+    rng = chk.rng
+    cases = [(c, "corpus") for c in corpus_cases] + [(c, "exhaustive") for c in exhaustive_histories()]
+    for _ in range(4000 if thorough else 500):
+        cases.append((gen_history(rng, rng.choice(["separate", "separate", "unrolled", "loop"])), "random"))
+    terms, kept = [], []
+    for case, kind in cases:
+        replay = dict(case, kind="hist")
+        results, whole_err, after, before = run_history(case)
+        MUTATED.clear()
+        calls = case["calls"]
+        shared = any(sum(1 for c in calls if c[1] == r and case["objects"][r]) >= 2 and len({repr(c[0]) for c in calls if c[1] == r}) >= 2
+                     for r in range(len(case["objects"])))
+        chk.count(("hist", repr(case)), shared, kind="hist-%s-%s" % (case["mode"], kind),
+                  sample=dict(replay, results=[r[1] for r in results]) if results and shared and kind == "random" and len(calls) > 2 else None)
+        # (1) the caller's dictionaries are unchanged
+        if after != before:
+            chk.fail(TRIG_MUTATED, "{% html_attrs %} changed a dictionary object it was given (defaults / attrs live on and reach the tag again)",
+                     dict(replay, before=before, after=after))
+        if whole_err is not None:
+            chk.fail("c13-tag-raises", "history of well-formed {%% html_attrs %%} calls raised %s: %s" % (whole_err[1], whole_err[2]), replay)
+            continue
+        # (2) every render = the same call rendered alone on FRESH dictionaries (pure function of the original contents)
+        for i, res in enumerate(results):
+            params = hist_call_params(case, i)
+            fresh, _src = run_tag(copy.deepcopy(params))
+            MUTATED.clear()
+            if fresh[:2] != res[:2]:
+                chk.fail(TRIG_HISTORY, "call %d of a history sharing dictionary objects rendered differently from the same call on fresh "
+                         "dictionaries (something an earlier call received leaked)" % (i + 1),
+                         dict(replay, call=i, rendered=res[1], alone=fresh[1]))
+            elif res[0] == "out":
+                exp = tag_oracle(params)
+                if exp is not None and not exp[1] and all(name_ok(k) for k, v in exp[0] if not (v is None or v is False)):
+                    check_roundtrip(chk, res[1], exp[0], dict(replay, call=i), "{% html_attrs %} (history)")
+        # model: run_heap on the original objects
+        def kw_sorted(kws):
+            return [kv for kv in kws if is_ident(kv[0])] + [kv for kv in kws if not is_ident(kv[0])]
+        cterms = ["(%s, %s, %s)" % (copt(a, lambda n: "%d%%nat" % n), copt(d, lambda n: "%d%%nat" % n), dict_term(kw_sorted(kws)))
+                  for a, d, kws in calls]
+        try:
+            final = clist([dict_term([(k, v) for k, v in o]) for o in after])
+        except Exception:  # noqa  (a value that cannot be described: already reported as mutated)
+            continue
+        terms.append("(%s, %s, %s, %s)" % (clist([dict_term(o) for o in case["objects"]]), clist(cterms),
+                                            clist([outcome_term(r) for r in results]), final))
+        kept.append(replay)
+    bad = C.coq_eval_cases("C13", "hist", IMPORTS, "hist_case", "check_hist", terms, shard=400)
+    for i in bad[:10]:
+        chk.disagree("model run_heap (history of html_attrs calls on shared dictionaries) != implementation", kept[i])
 
 
 # ---------------------------------------------------------------------------------------------
@@ -982,7 +1192,7 @@ def wrap_render_oracle(chk, thorough):
 
 # ---------------------------------------------------------------------------------------------
 def load_corpus():
-    out = {"ats": [], "tag": [], "wrap": []}
+    out = {"ats": [], "tag": [], "wrap": [], "hist": []}
     if os.path.isdir(CORPUS):
         for f in sorted(os.listdir(CORPUS)):
             if f.endswith(".json"):
@@ -992,6 +1202,8 @@ def load_corpus():
                     out["ats"].append([(k, v) for k, v in c["items"]])
                 elif c.get("kind") == "tag":
                     out["tag"].append(c["params"])
+                elif c.get("kind") == "hist":
+                    out["hist"].append({"objects": [[(k, v) for k, v in o] for o in c["objects"]], "calls": c["calls"], "mode": c["mode"]})
                 elif c.get("kind") in ("wrap", "wrap-render"):
                     out["wrap"].append(c)
     return out
@@ -1016,6 +1228,8 @@ def run(tier, seed):
         stream_ats(chk, thorough, corpus["ats"])
     if on("tag"):
         stream_tag(chk, thorough, corpus["tag"])
+    if on("hist"):
+        stream_hist(chk, thorough, corpus["hist"])
     if on("esc"):
         stream_escape(chk, thorough)
     if on("parse"):
@@ -1041,10 +1255,12 @@ def run(tier, seed):
              "across defaults/attrs/two keywords x 6 value kinds, ALL keyword sequences with a repeat of length <= 5 over 3 names (with and without "
              "dictionaries holding the names), repeats of non-string values, plain/SafeString key objects of one name meeting in the merge, 16 ways of "
              "passing the dicts x 3 tails, random param lists (positional, attrs=/defaults=, attrs:k/defaults:k, repeated keywords, spreads, non-identifier "
-             "keys, invalid names, SafeString keys, ill-formed mixes); parse: random well-formed attribute text; slot: 11 texts x plain/safe x "
+             "keys, invalid names, SafeString keys, ill-formed mixes); hist: the same attrs / defaults dict OBJECTS through 2-4 successive calls - all "
+             "attrs sequences of length 2-3 over 4 objects with a shared defaults (or attrs) object x {separate renders, one template, for-loop} + 500 "
+             "random histories; every call compared with the same call alone on fresh dicts, objects compared with their description before; parse: random well-formed attribute text; slot: 11 texts x plain/safe x "
              "str/function/Slot/Slot(escaped) x flag x all hop chains <= 2 over {repass T/F, rewrap T/F, dynamic} + random longer; wrap: every listed context "
              "x letter-case variants of </script / </style, look-alikes, Unicode case-folding traps, random strings over the end-tag alphabet, 24 real "
-             "renders. Non-trivial = value with a special character or an append (attrs), special characters travelling through >= 1 hop (slot), an end "
+             "renders. Non-trivial = value with a special character or an append (attrs), >= 2 calls with different attrs sharing one non-empty defaults object (hist), special characters travelling through >= 1 hop (slot), an end "
              "tag present (wrap)."
              % (5 if thorough else 4, 4 if thorough else 3, 3 if thorough else 2),
         explanation="Theorems of Props/C13.v re-checked by coqc; the model (escape, merge, tag-level param processing, attribute tokenizer, slot "
@@ -1075,6 +1291,13 @@ def replay(path):
         if res[0] == "out":
             print("read back:", parse_back(res[1]))
         print("statement:", tag_oracle(case["params"]))
+    elif k == "hist":
+        results, whole_err, after, before = run_history(case)
+        print("per call:", results, whole_err)
+        for i in range(len(case["calls"])):
+            print(" call %d alone on fresh dicts:" % (i + 1), run_tag(hist_call_params(case, i))[0])
+        print("objects before:", before)
+        print("objects after :", after)
     elif k == "slot":
         print("impl:", run_slot(case["content"], case["escape_slots_content"], case["hops"]))
         print("statement:", slot_expected(case["content"], case["escape_slots_content"], case["hops"]))
